@@ -6,6 +6,7 @@ import (
 	"os"
 	"sort"
 	"strings"
+	"sync"
 	"time"
 
 	"github.com/anishathalye/porcupine"
@@ -176,6 +177,14 @@ func (concEngine) Gen(prop string, seed uint64, tier string) *Spec {
 				}
 			case 3:
 				op = Op{K: "write", H: fileSlot(), Off: uint64(rng.Intn(3)) * 2048, Len: uint64(1 + rng.Intn(5000)), Pat: pat, How: rng.Intn(3)}
+				if rng.Chance(0.05) {
+					// a write of (nearly) the announced maximum: a transaction that fills half of the log
+					op.Off = uint64(rng.Intn(3)) * 300 * 4096
+					op.Len = uint64(200+rng.Intn(56)) * 4096
+					if rng.Chance(0.5) {
+						op.Len = 255 * 4096
+					}
+				}
 				op.Cnt = op.Len
 				pat++
 				if prop == "C01" {
@@ -241,29 +250,45 @@ type concRec struct {
 type pState struct {
 	m       *Model
 	key     string
+	keyOK   bool
 	crashed bool
 }
 
-// pagesHash is a content hash of a regular file's pages, cached in the object
-// (objects are copied before they are modified, and mut resets the cache).
+// pagesHash is a content hash of a regular file's pages. Pages are immutable
+// once stored in a model object (writes replace them), so the hash of a page
+// is cached by the identity of its slice; the object's hash combines the page
+// hashes order-independently. The cache lives for one run.
+var (
+	pageHashMu    sync.Mutex
+	pageHashCache = map[*byte]uint64{}
+)
+
+func resetPageHashCache() {
+	pageHashMu.Lock()
+	pageHashCache = map[*byte]uint64{}
+	pageHashMu.Unlock()
+}
+
 func (o *MObj) pagesHash() uint64 {
-	if o.pgHashOK {
-		return o.pgHash
-	}
-	pgs := make([]uint64, 0, len(o.Pages))
-	for p := range o.Pages {
-		pgs = append(pgs, p)
-	}
-	sort.Slice(pgs, func(i, j int) bool { return pgs[i] < pgs[j] })
-	h := uint64(1469598103934665603)
-	for _, p := range pgs {
-		h = (h ^ p) * 1099511628211
-		for _, c := range o.Pages[p] {
-			h = (h ^ uint64(c)) * 1099511628211
+	pageHashMu.Lock()
+	defer pageHashMu.Unlock()
+	var x uint64
+	for pg, p := range o.Pages {
+		if len(p) == 0 {
+			continue
 		}
+		h, ok := pageHashCache[&p[0]]
+		if !ok {
+			h = uint64(1469598103934665603)
+			for _, c := range p {
+				h = (h ^ uint64(c)) * 1099511628211
+			}
+			pageHashCache[&p[0]] = h
+		}
+		y := (h ^ (pg+1)*0x9E3779B97F4A7C15) * 0xBF58476D1CE4E5B9
+		x += y ^ y>>31
 	}
-	o.pgHash, o.pgHashOK = h, true
-	return h
+	return x
 }
 
 func (m *Model) canon() string {
@@ -299,17 +324,25 @@ func pStep(st *pState, in *In, out *Out) (*pState, error) {
 	if err := m.Step(in, out); err != nil {
 		return nil, err
 	}
-	ns := &pState{m: m, crashed: st.crashed || in.PostCrash}
-	ns.key = m.canon()
-	if ns.crashed {
-		ns.key += "|crashed"
+	return &pState{m: m, crashed: st.crashed || in.PostCrash}, nil
+}
+
+// Key is the canonical rendering of a state, computed when the checker first
+// compares or hashes it.
+func (st *pState) Key() string {
+	if !st.keyOK {
+		st.key = st.m.canon()
+		if st.crashed {
+			st.key += "|crashed"
+		}
+		st.keyOK = true
 	}
-	return ns, nil
+	return st.key
 }
 
 func nfsPorcupineModel(init *Model) porcupine.Model {
 	return porcupine.Model{
-		Init: func() interface{} { return &pState{m: init, key: init.canon()} },
+		Init: func() interface{} { return &pState{m: init} },
 		Step: func(state, input, output interface{}) (bool, interface{}) {
 			ns, err := pStep(state.(*pState), input.(*In), output.(*Out))
 			if err != nil {
@@ -317,8 +350,8 @@ func nfsPorcupineModel(init *Model) porcupine.Model {
 			}
 			return true, ns
 		},
-		Equal: func(a, b interface{}) bool { return a.(*pState).key == b.(*pState).key },
-		Hash:  func(a interface{}) uint64 { return hashString(a.(*pState).key) },
+		Equal: func(a, b interface{}) bool { return a.(*pState).Key() == b.(*pState).Key() },
+		Hash:  func(a interface{}) uint64 { return hashString(a.(*pState).Key()) },
 		DescribeOperation: func(input, output interface{}) string {
 			return describeIn(input.(*In))
 		},
@@ -671,6 +704,7 @@ func (x *concRun) addRec(r *concRec) int {
 
 func (concEngine) Exec(spec *Spec) *Result {
 	res := &Result{}
+	resetPageHashCache()
 	x := &concRun{spec: spec, res: res, d: simdisk.New(spec.Disk)}
 	cfg := simConfig(spec.Sched, 2_000_000)
 	cfg.SecondChance = 2_000_000
@@ -856,7 +890,10 @@ func (x *concRun) crashCheck() *Violation {
 		for _, r := range recs {
 			hist = append(hist, porcupine.Operation{ClientId: r.client, Input: r.in, Output: r.out, Call: r.call, Return: r.ret})
 		}
-		switch porcupine.CheckOperationsTimeout(model, hist, 20*time.Second) {
+		if x.res.Inconcl >= 3 {
+			return nil // this run's histories are too hard for the checker: stop spending time on it
+		}
+		switch porcupine.CheckOperationsTimeout(model, hist, 5*time.Second) {
 		case porcupine.Illegal:
 			dbg := linDebug(x.m, recs)
 			if strings.HasPrefix(dbg, "a linearization exists") {
@@ -1004,13 +1041,18 @@ func linDebug(init *Model, recs []*concRec) string {
 	var bestOrder []int
 	var bestWhy []string
 	var order []int
-	budget := 2_000_000
+	budget := 300_000
+	deadline := time.Now().Add(6 * time.Second)
 	var dfs func(m *pState, k int)
 	dfs = func(m *pState, k int) {
 		if budget <= 0 {
 			return
 		}
 		budget--
+		if budget%1024 == 0 && time.Now().After(deadline) {
+			budget = 0
+			return
+		}
 		if k == n {
 			best = n
 			bestOrder = append([]int{}, order...)
